@@ -76,7 +76,8 @@ def gen_cases(rng, tier):
     else:
       S = []
     route = "cli" if i % 15 == 7 else rng.choice(["api", "main"])
-    cases.append({"kind": "diff", "model": m, "S": S, "exclude": rng.random() < 0.5, "route": route, "set_class": cls})
+    cases.append({"kind": "diff", "model": m, "S": S, "exclude": rng.random() < 0.5, "route": route, "set_class": cls,
+                  "style": (rng.randrange(1, 1 << 30) if i % 2 else 0)})
   nv = 40 if tier == "quick" else 500
   for i in range(nv):
     m = gen_model(rng, i)
@@ -161,7 +162,9 @@ def run_diff(case, ctx):
   ctx.cls("set:" + case["set_class"])
   ctx.cls("mode:" + ("exclude" if exclude else "include"))
   edited, removed, kept = edit_model(m, S, exclude)
-  text = emit.model_text(m)
+  # the file handed to the filter is written the way people write files (white space - also form feed / vertical tab -
+  # around the '-' and '->' of keys, comments, numeral spellings): the labels the filter compares are the bare ones
+  text = emit.model_text(m, emit.Style(random.Random(case.get("style", 0)))) if case.get("style") else emit.model_text(m)
   text_edit = emit.model_text(edited)
   if route == "api":
     got = run_api(text, S, exclude, True)
